@@ -1,4 +1,9 @@
+#[cfg(not(lbfs_torrent_bootstrap_verif))]
 use std::{collections::HashMap, ops::DerefMut, path::PathBuf, sync::{Arc, Mutex}};
+#[cfg(lbfs_torrent_bootstrap_verif)]
+use std::{collections::HashMap, ops::DerefMut, path::PathBuf, sync::Arc};
+#[cfg(lbfs_torrent_bootstrap_verif)]
+use crate::verif_shim::sync::Mutex;
 use crate::{get_sha1_hexdigest, orchestrator::OrchestrationPiece, writer::FileWriter};
 use super::{multiple, single};
 
